@@ -87,6 +87,13 @@ def run(ctx):
                         "patch clause uses the shipped rulebook of the hardware; add_comments off, no ACL"]
     recs = []
     per = 120 if quick else 2500
+    # vocabulary for tree synthesis: the union of the rules of all variants of one vendor (a variant must be tested on rows that only
+    # OTHER variants have rules for: tables are selected per model and tags)
+    vocab = {}
+    for model, tags in HARDWARE:
+        dev0 = types.SimpleNamespace(hw=E.hwview(model, ""), tags=set(tags), hostname="vf", fqdn="vf.example")
+        sk = []
+        vocab.setdefault(dev0.hw.vendor, []).extend(rules_json(implicit._implicit_tree(dev0), sk))
     for model, tags in HARDWARE:
         hw = E.hwview(model, "")
         dev = types.SimpleNamespace(hw=hw, tags=set(tags), hostname="vf", fqdn="vf.example")
@@ -102,7 +109,8 @@ def run(ctx):
         prefix = registry_connector.get().match(hw).reverse
         jr = strip_private(rj)
         for k in range(per):
-            t, u = synth_tree(rj, rnd), synth_tree(rj, rnd)
+            voc = rj if k % 3 else vocab[hw.vendor]
+            t, u = synth_tree(voc, rnd), synth_tree(voc, rnd)
             if k % 7 == 0:
                 t = od()
             if k % 11 == 0:
